@@ -1,9 +1,343 @@
 package main
 
 import (
+	"fmt"
+	"io/ioutil"
+	"os"
+	"path/filepath"
+	"sort"
+	"strings"
+
+	"github.com/xuperchain/xupercore/bcs/ledger/xledger/ledger"
+	"github.com/xuperchain/xupercore/bcs/ledger/xledger/state"
+	sctx "github.com/xuperchain/xupercore/bcs/ledger/xledger/state/context"
+	txn "github.com/xuperchain/xupercore/bcs/ledger/xledger/tx"
+	lpb "github.com/xuperchain/xupercore/bcs/ledger/xledger/xldgpb"
+	xconf "github.com/xuperchain/xupercore/kernel/common/xconfig"
+	_ "github.com/xuperchain/xupercore/lib/storage/kvdb/leveldb"
+	"github.com/xuperchain/xupercore/protos"
+	pb "github.com/xuperchain/xupercore/protos"
 	"xv/xvlib"
 )
 
-func execRW(f []string, line string, out *xvlib.Out) string { return "bad-op" }
+// The real State used for `rw` lines: a fresh ledger (leveldb under the scratch dir) whose root block also
+// confirms one setup transaction that records the contract owners below in XCContract2Account; the ACL manager of
+// the State is a proxy to the fake manager of the current op line.
 
-func generateRW(run func(string, bool) string, rng *xvlib.Rng, n int, out *xvlib.Out) {}
+var staticOwners = "c0=a0 c1=a1 c2=a2" // c3: no owner entry
+
+const genesisJSON = `{"version":"1","predistribution":[{"address":"TeyyPLpp9L7QAcxHangtcHTu7HUZ6iydY","quota":"100000000"}],
+"maxblocksize":"16","award":"1000000","decimals":"8","award_decay":{"height_gap":31536000,"ratio":1},
+"gas_price":{"cpu_rate":1000,"mem_rate":1000000,"disk_rate":1,"xfee_rate":1},"new_account_resource_amount":1000,
+"genesis_consensus":{"name":"single","config":{"miner":"TeyyPLpp9L7QAcxHangtcHTu7HUZ6iydY","period":3000}}}`
+
+type proxyMgr struct{ cur *fakeMgr }
+
+func (p *proxyMgr) GetAccountACL(n string) (*pb.Acl, error) { return p.cur.GetAccountACL(n) }
+func (p *proxyMgr) GetContractMethodACL(c, m string) (*pb.Acl, error) {
+	return p.cur.GetContractMethodACL(c, m)
+}
+func (p *proxyMgr) GetAccountAddresses(n string) ([]string, error) { return nil, nil }
+
+var (
+	theState *state.State
+	theProxy = &proxyMgr{}
+	scratch  string
+)
+
+func contractName(c string) string { return "contract" + c[1:] }
+
+func copyDir(src, dst string) error {
+	os.MkdirAll(dst, 0755)
+	es, err := ioutil.ReadDir(src)
+	if err != nil {
+		return err
+	}
+	for _, e := range es {
+		if e.IsDir() {
+			continue
+		}
+		b, err := ioutil.ReadFile(filepath.Join(src, e.Name()))
+		if err != nil {
+			return err
+		}
+		if err := ioutil.WriteFile(filepath.Join(dst, e.Name()), b, 0644); err != nil {
+			return err
+		}
+	}
+	return nil
+}
+
+func getState() *state.State {
+	if theState != nil {
+		return theState
+	}
+	repo := os.Getenv("XV_REPO")
+	if repo == "" {
+		repo = "/repo"
+	}
+	root := filepath.Join(scratch, "root")
+	if err := copyDir(filepath.Join(repo, "kernel/mock/conf"), filepath.Join(root, "conf")); err != nil {
+		xvlib.Die("copy conf: %v", err)
+	}
+	econf, err := xconf.LoadEnvConf(filepath.Join(root, "conf/env.yaml"))
+	if err != nil {
+		xvlib.Die("env conf: %v", err)
+	}
+	econf.RootPath = root
+	econf.ChainDir = "chain"
+	lctx, err := ledger.NewLedgerCtx(econf, "xuper")
+	if err != nil {
+		xvlib.Die("ledger ctx: %v", err)
+	}
+	lg, err := ledger.CreateLedger(lctx, []byte(genesisJSON))
+	if err != nil {
+		xvlib.Die("create ledger: %v", err)
+	}
+	rootTx, err := txn.GenerateRootTx([]byte(genesisJSON))
+	if err != nil {
+		xvlib.Die("root tx: %v", err)
+	}
+	// the setup transaction: confirmed owner entries
+	setup := &lpb.Transaction{Txid: []byte("xv-acl-setup-tx-0000000000000001"), Version: 3}
+	for _, f := range strings.Fields(staticOwners) {
+		kv := strings.SplitN(f, "=", 2)
+		key := []byte(contractName(kv[0]))
+		setup.TxInputsExt = append(setup.TxInputsExt, &protos.TxInputExt{Bucket: aclBucketC2A, Key: key})
+		setup.TxOutputsExt = append(setup.TxOutputsExt, &protos.TxOutputExt{Bucket: aclBucketC2A, Key: key, Value: []byte(realName(kv[1]))})
+	}
+	blk, err := lg.FormatRootBlock([]*lpb.Transaction{rootTx, setup})
+	if err != nil {
+		xvlib.Die("root block: %v", err)
+	}
+	if st := lg.ConfirmBlock(blk, true); !st.Succ {
+		xvlib.Die("confirm root block failed: %v", st.Error)
+	}
+	sc, err := sctx.NewStateCtx(econf, "xuper", lg, xvlib.Crypto())
+	if err != nil {
+		xvlib.Die("state ctx: %v", err)
+	}
+	s, err := state.NewState(sc)
+	if err != nil {
+		xvlib.Die("new state: %v", err)
+	}
+	s.SetAclMG(theProxy)
+	if err := s.VerifApplyExt(setup); err != nil {
+		xvlib.Die("apply setup tx: %v", err)
+	}
+	theState = s
+	return s
+}
+
+const (
+	aclBucketAccount  = "XCAccount"
+	aclBucketContract = "XCContract"
+	aclBucketC2A      = "XCContract2Account"
+)
+
+type write struct {
+	kind byte // 'A','M','B','C','N','O'
+	name string
+}
+
+func parseWrites(s string) ([]write, bool) {
+	var ws []write
+	for _, f := range strings.Fields(s) {
+		switch {
+		case f == "MB":
+			ws = append(ws, write{'B', ""})
+		case f == "CN":
+			ws = append(ws, write{'N', ""})
+		case f == "O":
+			ws = append(ws, write{'O', ""})
+		case strings.HasPrefix(f, "A:") && validTok(f[2:]):
+			ws = append(ws, write{'A', f[2:]})
+		case strings.HasPrefix(f, "C:") && validTok(f[2:]):
+			ws = append(ws, write{'C', f[2:]})
+		case strings.HasPrefix(f, "M:c") && len(f) > 3:
+			ws = append(ws, write{'M', f[2:]})
+		default:
+			return nil, false
+		}
+	}
+	return ws, true
+}
+
+// execRW: rw|<env>|<owners>|<uris>|<verified>|<writes>
+func execRW(f []string, line string, out *xvlib.Out) string {
+	if len(f) != 6 {
+		return "bad-op"
+	}
+	e, err := parseEnv(f[1])
+	if err != nil {
+		return "bad-op"
+	}
+	us, err := parseURIs(f[3])
+	if err != nil {
+		return "bad-op"
+	}
+	ws, ok := parseWrites(f[5])
+	if !ok {
+		return "bad-op"
+	}
+	var ver []string
+	for _, v := range strings.Fields(f[4]) {
+		if !validTok(v) {
+			return "bad-op"
+		}
+		ver = append(ver, v)
+	}
+	if strings.Join(strings.Fields(f[2]), " ") != staticOwners {
+		return "-" // the real chain of the harness carries a fixed owner table; other tables are model-only
+	}
+	owners := map[string]string{}
+	for _, o := range strings.Fields(staticOwners) {
+		kv := strings.SplitN(o, "=", 2)
+		owners[kv[0]] = kv[1]
+	}
+	st := getState()
+	theProxy.cur = newMgr(e, nil)
+	tx := &lpb.Transaction{Version: 3, AuthRequire: realURIs(us),
+		ContractRequests: []*protos.InvokeRequest{{ModuleName: "xkernel", ContractName: "$acl", MethodName: "SetAccountAcl"}}}
+	for i, w := range ws {
+		o := &protos.TxOutputExt{}
+		switch w.kind {
+		case 'A':
+			o.Bucket, o.Key, o.Value = aclBucketAccount, []byte(realName(w.name)), []byte("{}")
+		case 'M':
+			o.Bucket, o.Key, o.Value = aclBucketContract, []byte(contractName(w.name)+"\x01increase"), []byte("{}")
+		case 'B':
+			o.Bucket, o.Key, o.Value = aclBucketContract, []byte("noseparator"), []byte("{}")
+		case 'C':
+			o.Bucket, o.Key, o.Value = aclBucketC2A, []byte(fmt.Sprintf("newcontract%d", i)), []byte(realName(w.name))
+		case 'N':
+			o.Bucket, o.Key, o.Value = aclBucketC2A, []byte(fmt.Sprintf("newcontract%d", i)), nil
+		case 'O':
+			o.Bucket, o.Key, o.Value = "counter", []byte("key"), []byte("1")
+		}
+		tx.TxOutputsExt = append(tx.TxOutputsExt, o)
+	}
+	verified := map[string]bool{}
+	for _, v := range ver {
+		verified[realName(v)] = true
+	}
+	evals++
+	impl := func() (res bool) {
+		defer func() {
+			if recover() != nil {
+				res = false
+			}
+		}()
+		ok, err := st.VerifRWSetPermission(tx, verified)
+		_ = err
+		return ok
+	}()
+	if out != nil && impl {
+		// property oracle (independent of the model): an accepted transaction must, for every write to an ACL
+		// bucket, satisfy the rule in force of the owning account with its AuthRequire — or the owner was handed
+		// in as already verified (the harness only hands in names that do satisfy it, or keys)
+		handed := map[string]bool{}
+		for _, v := range ver {
+			handed[v] = true
+		}
+		for _, w := range ws {
+			bad := ""
+			switch w.kind {
+			case 'A', 'C':
+				if !handed[w.name] && !specAccount(w.name, e, us) {
+					bad = "acl:rw-accepted-without-owner:" + map[byte]string{'A': "account", 'C': "contract2account"}[w.kind]
+				}
+			case 'M':
+				o, has := owners[w.name]
+				if !has {
+					bad = "acl:rw-accepted-method-acl-without-confirmed-owner"
+				} else if !handed[o] && !specAccount(o, e, us) {
+					bad = "acl:rw-accepted-without-owner:method"
+				}
+			case 'B', 'N':
+				bad = "acl:rw-accepted-malformed-write"
+			}
+			if bad != "" {
+				out.Violate(xvlib.Violation{Key: bad,
+					What: "verifyRWSetPermission accepted a transaction whose write " + string(w.kind) + ":" + w.name + " is not authorised by the owning account's rule in force",
+					Ops:  []string{line}, Impl: []string{ar(impl)}})
+				break
+			}
+		}
+	}
+	return ar(impl)
+}
+
+func generateRW(run func(string, bool) string, rng *xvlib.Rng, n int, out *xvlib.Out) {
+	envs := []string{
+		"a0=T:4:k0=4 a1=S:k1 a2=T:4:k0=2,k1=2",
+		"a0=T:4:k0=2,a1=2 a1=S:k1;k2 a2=S:k0+k1",
+		"a0=S:k0+k1 a1=T:2:k2=2 ",
+		"a0=T:2:k0=1,k1=1,k2=1 a1=T:4:a0=4 a2=T:1:k2=1",
+	}
+	for i := 0; i < n; i++ {
+		env := envs[rng.Intn(len(envs))]
+		if rng.Chance(1, 5) {
+			env = randEnv(rng)
+		}
+		e, _ := parseEnv(env)
+		// AuthRequire: URIs over several roots
+		var us []string
+		nu := rng.Intn(5)
+		for j := 0; j < nu; j++ {
+			root := fmt.Sprintf("a%d", rng.Intn(3))
+			switch rng.Intn(6) {
+			case 0:
+				us = append(us, fmt.Sprintf("%s/a%d/k%d", root, rng.Intn(3), rng.Intn(3)))
+			case 1:
+				us = append(us, fmt.Sprintf("%s/k%d/k%d", root, rng.Intn(3), rng.Intn(3)))
+			case 2:
+				us = append(us, fmt.Sprintf("k%d", rng.Intn(3)))
+			default:
+				us = append(us, fmt.Sprintf("%s/k%d", root, rng.Intn(3)))
+			}
+		}
+		uris, _ := parseURIs(strings.Join(us, " "))
+		// verifiedID: keys (addresses whose signature was verified) and accounts that do satisfy their rule
+		var ver []string
+		for k := 0; k < 3; k++ {
+			if rng.Chance(1, 3) {
+				ver = append(ver, fmt.Sprintf("k%d", k))
+			}
+		}
+		for a := 0; a < 3; a++ {
+			an := fmt.Sprintf("a%d", a)
+			if rng.Chance(1, 4) && specAccount(an, e, uris) {
+				ver = append(ver, an)
+			}
+		}
+		sort.Strings(ver)
+		var ws []string
+		nw := 1 + rng.Intn(4)
+		for j := 0; j < nw; j++ {
+			switch rng.Intn(12) {
+			case 0, 1, 2, 3:
+				ws = append(ws, fmt.Sprintf("A:a%d", rng.Intn(4)))
+			case 4, 5, 6:
+				ws = append(ws, fmt.Sprintf("M:c%d", rng.Intn(4)))
+			case 7, 8:
+				ws = append(ws, fmt.Sprintf("C:a%d", rng.Intn(4)))
+			case 9:
+				if rng.Bool() {
+					ws = append(ws, "MB")
+				} else {
+					ws = append(ws, "CN")
+				}
+			case 10:
+				ws = append(ws, fmt.Sprintf("A:k%d", rng.Intn(3)))
+			default:
+				ws = append(ws, "O")
+			}
+		}
+		line := fmt.Sprintf("rw|%s|%s|%s|%s|%s", strings.Join(strings.Fields(env), " "), staticOwners, strings.Join(us, " "), strings.Join(ver, " "), strings.Join(ws, " "))
+		r := run(line, true)
+		if i < 2 {
+			out.Sample(map[string]string{"op": line, "impl": r})
+		}
+	}
+}
